@@ -120,9 +120,7 @@ def r10_4(F, R):
 
 
 def narrow_only(fn, site):
-    import os
-    if os.environ.get("TXV_ARM_ALL"):
-        return True
+    return True  # every site kind is armed everywhere (triage complete)
     """K3 is armed only for Add/Sub/Mul on <=16-bit integers (R10.2); other K3/K4 are not decided"""
     if site.kind in ("K1", "K2"):
         return True
@@ -140,8 +138,9 @@ def narrow_only(fn, site):
 
 def run(F, R, tier):
     R.rule("R10.1", "explicit panics and the unwrap family in every function reachable from tfm_to_pl / pl_to_tfm are discharged or findings")
-    R.rule("R10.2", "every Add/Sub/Mul overflow assert on u8/i8/i16/u16 operands and every range-slicing of a str/String (char-boundary panic) reachable from "
-                    "the entry points is discharged (constant, checked guard) or audited, or a finding")
+    R.rule("R10.2", "every assert terminator (overflow, division, bounds) and every curated panicking std call (indexing, slicing, split_at, rotate, "
+                    "to_digit, RefCell, ...) reachable from the entry points — the tfm crate, the two command line tools and the common crate — is "
+                    "discharged (constant, dominating guard, type/width argument) or audited with a per-site invariant, or a reproduced finding")
     kinds = ("K1", "K2", "K3", "K4")
     r10_3(F, R)
     r10_4(F, R)
@@ -157,7 +156,8 @@ def run(F, R, tier):
     not_arbitrary = lambda fn: "arbitrary::Arbitrary" not in fn.name  # fuzzing support generated by derive(Arbitrary), not on the conversion path
     seen = run_pps(F, R, "R10", ENTRIES, kinds, CHA, armed=armed, crate_scope={"tfm.lib", "tftopl.bin", "pltotf.bin", "common.lib"}, fn_filter=not_arbitrary, floor_fns=300, floor_sites=60,
                    what=": arbitrary bytes / text must give a result or a documented error")
-    return ("Static analysis (partial claim). Decided: explicit panic / unwrap-family sites and all <=16-bit Add/Sub/Mul overflow asserts reachable from "
-            "tfm_to_pl / pl_to_tfm are discharged (constant, dominating guard, type, audited) or reproduced findings. NOT decided: slice bounds and range "
-            "slicing (the 4-byte-word invariant needs a congruence argument), 32-bit/usize arithmetic of validate_and_fix and the PL parser's span arithmetic "
-            "(listed as undecided with counts), and that PL->TFM output is re-readable.")
+    return ("Static analysis (partial claim). Decided: every potential-panic site (explicit panics, unwrap family, assert terminators, curated std calls) "
+            "reachable from tfm_to_pl / pl_to_tfm / the tftopl and pltotf tools is discharged (constant, dominating guard, type), audited with a per-site "
+            "invariant (some re-checked by `requires` clauses), or a reproduced finding; the eleven sub-file sizes are checked non-negative before slicing "
+            "(R10.3); every warning sorted by offset carries one (R10.4). The audited invariants are hand arguments: they are the trusted part. NOT "
+            "decided: that PL->TFM output is re-readable, and allocation size / termination.")
